@@ -18,10 +18,20 @@ EXTREME  (audit item C15-1) moduli 1e+-(155..300) for modulus / inverse / divisi
          sigmoid: all operands finite, the true result finite and representable. Native complex128 arithmetic (np.abs = hypot,
          Smith division) is exact to rounding there; code that forms |z|^2 or e^z explicitly returns inf / nan / 0. Expected value:
          numpy complex128 on the decoded operands (math.hypot for the norm); signature `<fn>/extreme-range`.
+EDGE     (hardening round 4) operands and results AT THE EDGE of the double range, for the same functions: components within a
+         factor 4 of the largest double (incl. DBL_MAX itself) / of the smallest normal number, sub-normal operands, the decades
+         1e+-(300..308) between EXTREME and the edge, quotients within a factor 4 of overflow (|q| in [MAX/4, MAX/2]) or of
+         underflow, sigmoid results from 1e-304 down to the smallest sub-normal (Re z in [-746, -690]). Every operand finite, the
+         EXACT result representable. numpy's own complex division overflows there (Smith's algorithm forms c + d*(d/c)), so the
+         expected value is exact rational arithmetic on the operands, rounded once (`exact_quotient`; math.hypot for modulus and
+         norm, the 40-digit logistic for the sigmoid). Results are compared relative to their own magnitude down to 1e-310
+         (`TINY_EDGE`; the general floor `TINY` = 1e-290 would hide a reciprocal that was flushed to 0). Signature `<fn>/edge-of-range`.
 """
 import itertools
 import math
 import os
+import sys
+from fractions import Fraction
 
 import numpy as np
 
@@ -40,7 +50,10 @@ RULE = ("case = (function, operand shapes incl. the leading complex axis, operan
         "column, expanded views; storage offset; one shared storage), storage-sharing out= buffers (views of an operand, overlapping windows), call "
         "HISTORY on the same objects (in-place re-parametrisation, earlier result scribbled), numeric RANGE (sigmoid Re z in [-800,1000], moduli "
         "1e-140..1e140 and, for modulus / inverse / division / norm, 1e+-(155..300) with a representable result; exact zeros; per-entry relative "
-        "comparison). Einsum equations: explicit, implicit-output and ellipsis forms. non-trivial iff every complex operand has an entry with non-zero real AND imaginary part (so a sign or "
+        "comparison), EDGE of the double range for the same functions (components in [MAX/4, MAX] incl. DBL_MAX, in [MIN, 4 MIN] incl. the smallest "
+        "normal number, sub-normal operands, the decades 1e+-(300..308); divisors with equal / one negligible / one zero component; quotients of "
+        "order one, within a factor 4 of overflow (|q| in [MAX/4, MAX/2]) and of underflow; numerator at the edge over an ordinary divisor; sigmoid "
+        "with Re z in [-746, -690]; expected value by exact rational arithmetic, results compared relative to their own size down to 1e-310). Einsum equations: explicit, implicit-output and ellipsis forms. non-trivial iff every complex operand has an entry with non-zero real AND imaginary part (so a sign or "
         "conjugation error changes the result) and the call is not a pure error case; distinct by hash of the whole case")
 THEOREMS = {
     "make_complex": "C15_make_complex, C15_make_complex_none, C15_rejects_make_complex",
@@ -488,6 +501,40 @@ def logistic_reference(z):
     return out
 
 
+DBL_MAX, DBL_MIN = sys.float_info.max, sys.float_info.min   # largest double, smallest NORMAL double
+EDGE = ("edge_large", "edge_small", "edge_subnormal", "edge_mixed", "edge_unit", "edge_quotient", "edge_underflow")
+
+
+def _to_float(q):
+    """a rational rounded once to the nearest double; +-inf beyond the range"""
+    try:
+        return float(q)
+    except OverflowError:
+        return math.inf if q > 0 else -math.inf
+
+
+def exact_quotient(x, y):
+    """x / y of two (broadcasting) complex ndarrays in exact rational arithmetic on the very doubles given, each part rounded
+    once. Independent of every floating-point division algorithm (numpy's Smith division overflows for components beyond
+    DBL_MAX/2 and loses everything for sub-normal divisors). A zero divisor gives nan parts."""
+    x, y = np.broadcast_arrays(np.asarray(x, dtype=np.complex128), np.asarray(y, dtype=np.complex128))
+    out = np.empty(x.shape, dtype=np.complex128)
+    for idx in np.ndindex(*x.shape):
+        a, b, c, d = (Fraction(float(v)) for v in (x[idx].real, x[idx].imag, y[idx].real, y[idx].imag))
+        den = c * c + d * d
+        if den == 0:
+            out[idx] = complex(math.nan, math.nan)
+        else:
+            out[idx] = complex(_to_float((a * c + b * d) / den), _to_float((b * c - a * d) / den))
+    return out
+
+
+def exact_product(x, y):
+    """x * y (complex scalars) in exact rational arithmetic, each part rounded once"""
+    a, b, c, d = (Fraction(float(v)) for v in (x.real, x.imag, y.real, y.imag))
+    return complex(_to_float(a * c - b * d), _to_float(a * d + b * c))
+
+
 def np_broadcast(sa, sb):
     try:
         return list(np.broadcast_shapes(tuple(sa), tuple(sb)))
@@ -503,6 +550,7 @@ def oracle_value(case):
     x, y = case.get("x"), case.get("y")
     sx = x["shape"] if x else None
     sy = y["shape"] if y else None
+    edge = case.get("regime") in EDGE     # at the edge of the double range numpy's complex division itself overflows
 
     def cplx_ok(s, need=2):
         return len(s) >= 1 and s[0] >= need
@@ -584,15 +632,18 @@ def oracle_value(case):
     if fn == "elementwise_division":
         if sx != sy:
             return ("err", "ValueError")
-        return ("c", decode(x) / decode(y))
+        return ("c", exact_quotient(decode(x), decode(y)) if edge else decode(x) / decode(y))
     if fn == "absolute_value":
+        if edge:
+            d = decode(x)
+            return ("r", np.asarray([math.hypot(float(v.real), float(v.imag)) for v in np.ravel(d)]).reshape(d.shape))
         return ("r", np.abs(decode(x)))
     if fn == "inverse":
-        return ("c", 1.0 / decode(x))
+        return ("c", exact_quotient(1.0, decode(x)) if edge else 1.0 / decode(x))
     if fn == "scalar_divide":
         if np_broadcast(sx[1:], sy[1:]) is None:
             return ("err", "RuntimeError")
-        return ("c", decode(x) / decode(y))
+        return ("c", exact_quotient(decode(x), decode(y)) if edge else decode(x) / decode(y))
     if fn == "sigmoid":
         if np_broadcast(sx, sy) is None:
             return ("err", "ValueError")
@@ -959,13 +1010,19 @@ def entry_scale(case, want):
 
 
 TINY = 1e-290  # floor of the per-entry normaliser (sub-normal results are compared absolutely at this level)
+TINY_EDGE = 1e-310  # the same floor in the EDGE regimes, whose results may lie just above / inside the sub-normal range: a result of
+#                     1e-310 still has 13 significant digits; below it the comparison is absolute at 1e-319 (~ 2e4 sub-normal ulps)
 
 
-def normalised(vals, nrm):
+def floor_of(case):
+    return TINY_EDGE if case.get("regime") in EDGE else TINY
+
+
+def normalised(vals, nrm, floor=TINY):
     out = []
     for v, n_ in zip(vals, nrm):
         if math.isfinite(v) and math.isfinite(n_):
-            out.append(v / max(n_, TINY))
+            out.append(v / max(n_, floor))
         else:
             out.append(v)
     return out
@@ -978,6 +1035,8 @@ def sig_of(case, fn, what):
     """stable signature; the EXTREME regimes (audit item C15-1 / finding F17) get one signature per function"""
     if case.get("regime") in EXTREME:
         return f"{fn}/extreme-range"
+    if case.get("regime") in EDGE:
+        return f"{fn}/edge-of-range"
     return f"{fn}/{what}"
 
 
@@ -1036,7 +1095,7 @@ def one_case(ctx, case):
             ctx.point(name, "property", ivals, mvals, case, exact=True, theorem=th, sig=sg)
         elif nrm is not None and len(mvals) == len(nrm) == len(ivals):
             # relative to the magnitude of each entry, not to the largest entry of the tensor
-            ni, nm_ = normalised(ivals, nrm), normalised(mvals, nrm)
+            ni, nm_ = normalised(ivals, nrm, floor_of(case)), normalised(mvals, nrm, floor_of(case))
             bad = [k for k in range(len(ni)) if not close(ni[k], nm_[k])]
             if not bad:
                 ctx.point(name, "property", ni, nm_, case, scale=1.0, theorem=th, sig=sg)
@@ -1112,6 +1171,7 @@ def one_case(ctx, case):
         ctx.oracle(f"{fn} accepts", False, case, detail={"impl": impl, "expected_shape": list(want[1].shape)}, sig=f"{fn}/accepts", theorem=th)
         return
     arr = np.asarray(want[1])
+    edge_regime = case.get("regime") in EDGE
 
     def against_oracle(res, label, sg):
         if "re" in res:  # ndarray result of cplx.numpy
@@ -1135,7 +1195,7 @@ def one_case(ctx, case):
                     fin = np.isfinite(arr) & np.isfinite(sc)
                     # non-finite true value (division by an exact zero, …): only the class is compared
                     ok = bool(np.all(np.isfinite(got) == fin)) and \
-                        bool(np.all(np.abs(got[fin] - arr[fin]) <= 1e-7 * sc[fin] + TINY))
+                        bool(np.all(np.abs(got[fin] - arr[fin]) <= 1e-7 * sc[fin] + (1e-9 * TINY_EDGE if edge_regime else TINY)))
         if not ok:
             detail = {"impl_shape": res.get("shape"), "expected_shape": list(arr.shape),
                       "impl": str(np.asarray(got).ravel()[:16].tolist()) if got is not None else None, "expected": str(arr.ravel()[:16].tolist())}
@@ -1599,6 +1659,177 @@ def gen_extreme(ctx, n_scale):
         yield c
 
 
+# ------------------------------------------------------------------ EDGE of the double range (hardening round 4)
+RECIP_MIN = 0.3 / DBL_MAX   # smallest component of a divisor whose reciprocal must be representable: 1/z = z* / |z|^2 is finite from
+#                             about 0.5 / MAX (equal components) or 1 / MAX (one component) on; `recip=True` doubles an entry until it is
+SIG_UNDERFLOW = -708.3964185322641   # log(DBL_MIN): the sigmoid (~ e^z there) leaves the normal range below
+
+
+def edge_mag(rng, side, lo_sub=RECIP_MIN):
+    """a magnitude at the edge of the double range. large: [MAX/4, MAX] (DBL_MAX itself, its predecessor, round fractions) or
+    the decades 1e300..1e308.25; small: [MIN, 4 MIN] (the smallest normal number, its successor) or 1e-300..1e-307.65;
+    subnormal: [lo_sub, MIN)"""
+    u = rng.random()
+    if side == "large":
+        if u < 0.2:
+            return DBL_MAX * rng.choice([1.0, 1.0 - 2.0 ** -53, 0.99, 0.75, 0.55, 0.5, 0.3, 0.25])
+        if u < 0.75:
+            return DBL_MAX * rng.uniform(0.25, 1.0)
+        return 10.0 ** rng.uniform(300.0, 308.25)
+    if side == "small":
+        if u < 0.2:
+            return DBL_MIN * rng.choice([1.0, 1.0 + 2.0 ** -52, 1.5, 2.0, 3.0, 4.0])
+        if u < 0.75:
+            return DBL_MIN * rng.uniform(1.0, 4.0)
+        return 10.0 ** -rng.uniform(300.0, 307.65)
+    if side == "unit":
+        return rng.uniform(0.25, 4.0)
+    if u < 0.15:
+        return rng.choice([lo_sub, DBL_MIN * (1.0 - 2.0 ** -52), DBL_MIN * 0.5])
+    return rng.uniform(lo_sub, DBL_MIN)
+
+
+def edge_pair(rng, side, lo_sub=RECIP_MIN):
+    """(re, im) of one entry whose LARGER component is an edge magnitude: both at the edge, equal components (|z/scale|^2 = 2),
+    one component negligible or exactly zero; random signs"""
+    m1, m2 = edge_mag(rng, side, lo_sub), edge_mag(rng, side, lo_sub)
+    u = rng.random()
+    if u < 0.12:
+        m2 = 0.0
+    elif u < 0.3:
+        m2 = m1
+    elif u < 0.4:
+        m2 = m1 * 10.0 ** -rng.uniform(1.0, 300.0)
+    a, b = m1 * rng.choice([-1.0, 1.0]), m2 * rng.choice([-1.0, 1.0])
+    return (b, a) if rng.random() < 0.5 else (a, b)
+
+
+def edge_side(rng, regime):
+    if regime == "edge_mixed":
+        return rng.choice(["large", "small", "subnormal"])
+    return regime[len("edge_"):]
+
+
+def edge_tensor(rng, tshape, regime, lo_sub=RECIP_MIN, norm_cap=False, joint=False, recip=False):
+    """complex tensor of edge entries. norm_cap: every modulus (joint: the Euclidean norm of ALL parts) must be representable
+    with a little room (<= DBL_MAX (1 - 1e-9)): entries are shrunk by 0.7 until it is. recip: the exact reciprocal of every
+    entry must be representable: a (sub-normal) entry is doubled until it is"""
+    n = numel(tshape)
+    ent = [edge_pair(rng, edge_side(rng, regime), lo_sub) for _ in range(n)]
+    if recip:
+        for k, (a, b) in enumerate(ent):
+            while True:
+                w = exact_quotient(1.0, complex(a, b))[()]
+                if math.isfinite(w.real) and math.isfinite(w.imag) and math.hypot(w.real, w.imag) <= DBL_MAX * (1.0 - 1e-9):
+                    break
+                a, b = a * 2.0, b * 2.0
+            ent[k] = (a, b)
+    cap = DBL_MAX * (1.0 - 1e-9)
+    if norm_cap and not joint:
+        ent = [list(e) for e in ent]
+        for e in ent:
+            while not math.hypot(e[0], e[1]) <= cap:
+                e[0], e[1] = e[0] * 0.7, e[1] * 0.7
+    if joint:
+        while n and not math.hypot(*[v for e in ent for v in e]) <= cap:
+            ent = [(a * 0.7, b * 0.7) for a, b in ent]
+    return T([2] + list(tshape), [e[0] for e in ent] + [e[1] for e in ent])
+
+
+def edge_numerators(rng, s, ydec, qclass):
+    """numerators x (complex ndarray of shape s) for the divisors `ydec` (broadcast to s): x = fl(q * y) with the quotient q of the
+    class asked for -- unit: |q| = 10^U(-2,2); over: |q| in [MAX/4, MAX/2] (within a factor 4 of overflow; beyond MAX/2 the
+    components of q |y/scale|^2, which every division algorithm forms, are no longer representable); under: |q| in [MIN, 4 MIN].
+    Entries whose exact quotient would leave [0, MAX/2] are halved until it does not."""
+    yb = np.broadcast_to(ydec, tuple(s))
+    x = np.empty(tuple(s), dtype=np.complex128)
+    for idx in np.ndindex(*tuple(s)):
+        qm = {"unit": 10.0 ** rng.uniform(-2.0, 2.0), "over": DBL_MAX * rng.uniform(0.25, 0.5),
+              "under": DBL_MIN * rng.uniform(1.0, 4.0)}[qclass]
+        u = rng.random()
+        phi = rng.choice([0.0, 0.5, 1.0, 1.5]) * math.pi if u < 0.15 else rng.uniform(0.0, 2.0 * math.pi)
+        q = complex(qm * math.cos(phi), qm * math.sin(phi))
+        v = exact_product(q, complex(yb[idx]))
+        for _ in range(12):
+            if math.isfinite(v.real) and math.isfinite(v.imag):
+                w = exact_quotient(v, yb[idx])[()]
+                if math.isfinite(w.real) and math.isfinite(w.imag) and math.hypot(w.real, w.imag) <= DBL_MAX / 2.0:
+                    break
+                v = complex(v.real / 2.0, v.imag / 2.0)
+            else:
+                q = complex(q.real / 2.0, q.imag / 2.0)
+                v = exact_product(q, complex(yb[idx]))
+        x[idx] = v
+    return x
+
+
+def cplx_T(arr):
+    arr = np.asarray(arr, dtype=np.complex128)
+    return T([2] + list(arr.shape), np.real(arr).ravel().tolist() + np.imag(arr).ravel().tolist())
+
+
+def gen_edge(ctx, n_scale):
+    """EDGE regime (hardening round 4): operands / results within a factor 4 of the largest double or of the smallest normal
+    number (and sub-normal operands, and the decades 1e+-(300..308)), for every function of the EXTREME regime. All operands
+    finite, every exact result representable; see the module docstring."""
+    rng = ctx.rng
+    num = "float"
+    R = lambda k: range(max(1, int(k * n_scale)))  # noqa: E731
+    for _ in R(150):
+        fn = rng.choice(["absolute_value", "inverse", "inverse", "elementwise_division", "elementwise_division", "norm",
+                         "scalar_divide", "scalar_divide"])
+        regime = rng.choice(["edge_large", "edge_large", "edge_small", "edge_subnormal", "edge_mixed"])
+        s = rand_shape(rng)
+        c = {"fn": fn, "num": num, "regime": regime}
+        if fn == "absolute_value":
+            # any sub-normal component is admissible here (the modulus is representable)
+            c.update(x=edge_tensor(rng, s, regime, lo_sub=5e-324, norm_cap=True))
+        elif fn == "norm":
+            c.update(x=edge_tensor(rng, rng.choice([[], [rng.randint(1, 4)]]), regime, lo_sub=5e-324, norm_cap=True, joint=True))
+        elif fn == "inverse":
+            c.update(x=edge_tensor(rng, s, regime, recip=True))
+        else:
+            if fn == "elementwise_division":
+                t = list(s)
+                # the divisor may also be an ordinary number with the NUMERATOR at the edge
+                yreg = regime if rng.random() < 0.75 else "edge_unit"
+                y = edge_tensor(rng, t, yreg, lo_sub=5e-324 if yreg != "edge_mixed" else RECIP_MIN)
+            else:
+                # scalar_divide = x * inverse(y): the divisor's reciprocal must itself be representable;
+                # one side per divisor tensor, broadcast over x
+                t = rng.choice([[], [], list(s), list(s[rng.randint(0, len(s)):]), [1 if rng.random() < 0.5 else d for d in s]])
+                yreg = (regime if regime != "edge_mixed" else rng.choice(["edge_large", "edge_small"])) if rng.random() < 0.8 else "edge_unit"
+                y = edge_tensor(rng, t, yreg, recip=True)
+            side = yreg[len("edge_"):]
+            qclass = rng.choice({"large": ["unit", "unit", "under"], "small": ["unit", "over", "over"],
+                                 "subnormal": ["unit", "over"], "unit": ["over", "over", "under"], "mixed": ["unit"]}[side])
+            c.update(x=cplx_T(edge_numerators(rng, s, decode(y), qclass)), y=y)
+            if qclass != "unit" or yreg == "edge_unit":
+                c["regime"] = "edge_quotient"
+            c["qclass"] = qclass
+        yield c
+    # the sigmoid where its value leaves the normal range: Re z in [-746, -690] (values 1e-300 .. 5e-324), densest around log(DBL_MIN)
+    for _ in R(40):
+        s = rand_shape(rng)
+        t = bcast_partner(rng, s) if rng.random() < 0.3 else list(s)
+
+        def re_val():
+            u = rng.random()
+            if u < 0.45:
+                return SIG_UNDERFLOW + rng.uniform(-1.5, 1.5)    # within a factor ~4 of the smallest normal number
+            if u < 0.8:
+                return rng.uniform(-746.0, -690.0)
+            return rng.choice([-rng.uniform(30.0, 690.0), rng.gauss(0.0, 5.0), rng.uniform(30.0, 700.0)])
+
+        def im_val():
+            u = rng.random()
+            return 0.0 if u < 0.1 else (rng.uniform(-math.pi, math.pi) * 0.97 if u < 0.7 else rng.gauss(0.0, 50.0))
+        xs = [re_val() for _ in range(numel(s))]
+        if xs and not any(-746.0 <= v <= -690.0 for v in xs):
+            xs[rng.randrange(len(xs))] = SIG_UNDERFLOW + rng.uniform(-1.5, 1.5)
+        yield {"fn": "sigmoid", "num": num, "x": T(s, xs), "y": T(t, [im_val() for _ in range(numel(t))]), "regime": "edge_underflow"}
+
+
 def gen_alias(ctx, n_scale):
     """out= buffers that are DIFFERENT objects sharing storage with an operand (x[...], view_as, detach, .data, an overlapping
     window of the same 1-D storage): accepted, and the returned value is the product of the operands as they were (fix 96aa40c)"""
@@ -1658,7 +1889,7 @@ def decorate(ctx, case):
             continue
         # (an expanded layout copies entries along the expanded axes: not for the EXTREME cases, whose operands are paired
         # entry by entry so that every quotient is representable)
-        l = rand_layout(rng, t["shape"], allow_expand=not (alias and alias["with"] == role) and case.get("regime") not in EXTREME)
+        l = rand_layout(rng, t["shape"], allow_expand=not (alias and alias["with"] == role) and case.get("regime") not in EXTREME + EDGE)
         if l:
             if case.get("same") and role == "x":
                 pass
@@ -1842,7 +2073,7 @@ def gen_malformed(ctx, n_scale):
 
 
 def gen_all(ctx, n_scale):
-    for gen in (gen_exact, gen_alias, gen_tolerance, gen_ranges, gen_extreme, gen_malformed):
+    for gen in (gen_exact, gen_alias, gen_tolerance, gen_ranges, gen_extreme, gen_edge, gen_malformed):
         for case in gen(ctx, n_scale):
             yield decorate(ctx, case)
 
